@@ -264,6 +264,29 @@ def run_user(case, workdir, rec):
             rec.fail("cli_differs_from_api", {"argv": argv}, "the chef command wrote another tree than Chef(...).cook()")
         shutil.rmtree(out, ignore_errors=True)
         shutil.rmtree(out2, ignore_errors=True)
+    # history: two recipe FILES with the same base name in one process (study_one/recipe.py, then study_two/recipe.py)
+    for serial in (True, False):
+        outs = []
+        for k2, rname in enumerate(("R1", "R3")):
+            dd = os.path.join(workdir, "study_%d_%d" % (k2, serial))
+            os.makedirs(dd, exist_ok=True)
+            with open(os.path.join(dd, "recipe.py"), "w") as f:
+                f.write(USER[rname][0])
+            out = os.path.join(workdir, "ck_same_name_%d" % k2)
+            with vpool.controlled():
+                st, val = call(lambda: Chef(path, recipe=os.path.join(dd, "recipe.py"), outfile=out, serial=serial, kept_fields="Z").cook())
+            outs.append((rname, st, val, out))
+        rec.exe([dh, "same_recipe_basename", serial], nontrivial=True, trans=2)
+        rname, st, val, out = outs[1]
+        sub = {"history": "another recipe file with the same base name cooked before", "recipe": rname, "serial": serial}
+        if st == "exc":
+            rec.fail("history_raised", sub, exc_text(val))
+        else:
+            pp = common_output_checks(rec, sub, out, ref)
+            if pp is not None:
+                check_components(rec, sub, pp, ref, names, lambda lv, b: USER[rname][2](ref.data[lv][b], fidx), USER[rname][1], ["Z"])
+        for _r, _s, _v, o_ in outs:
+            shutil.rmtree(o_, ignore_errors=True)
     # history on ONE Chef object: cooking twice must give the same output tree
     for serial in (True, False):
         out = os.path.join(workdir, "ck_twice")
